@@ -1,6 +1,7 @@
 package tbldrv
 
 import (
+	"bytes"
 	"context"
 	"crypto/sha256"
 	"crypto/sha512"
@@ -8,7 +9,10 @@ import (
 	"encoding/json"
 	"errors"
 	"hash"
+	"io"
+	"net/http"
 	"reflect"
+	"strings"
 	"time"
 
 	jose "github.com/go-jose/go-jose/v4"
@@ -26,6 +30,17 @@ const (
 	vClientID = "cid"
 	absent    = -999999
 )
+
+// docTransport serves fixed documents by URL path.
+type docTransport map[string][]byte
+
+func (t docTransport) RoundTrip(r *http.Request) (*http.Response, error) {
+	b, ok := t[r.URL.Path]
+	if !ok {
+		return &http.Response{StatusCode: 404, Body: io.NopCloser(strings.NewReader("not found")), Request: r, Header: http.Header{}}, nil
+	}
+	return &http.Response{StatusCode: 200, Header: http.Header{"Content-Type": {"application/json"}}, Body: io.NopCloser(bytes.NewReader(b)), Request: r}, nil
+}
 
 type staticKeys struct{ pub any }
 
@@ -156,7 +171,6 @@ func VerifierCase(c *Case) M {
 		rp.WithIssuedAtOffset(time.Duration(I(cfg, "offset")) * time.Second),
 		rp.WithIssuedAtMaxAge(time.Duration(I(cfg, "maxIAT")) * time.Second),
 		rp.WithAuthTimeMaxAge(time.Duration(I(cfg, "maxAge")) * time.Second),
-		rp.WithSupportedSigningAlgorithms(alg),
 	}
 	switch S(cfg, "nonce") {
 	case "n1":
@@ -167,7 +181,21 @@ func VerifierCase(c *Case) M {
 	if S(cfg, "acr") == "allowed" {
 		opts = append(opts, rp.WithACRVerifier(oidc.DefaultACRVerifier([]string{"urn:acr:allowed"})))
 	}
+	opts = append(opts, rp.WithSupportedSigningAlgorithms(alg)) // last: the relying-party path takes the algorithms from discovery instead
 	v := rp.NewIDTokenVerifier(vIssuer, vClientID, staticKeys{trusted.Pub}, opts...)
+	if S(cfg, "via") == "rpOIDC" {
+		// the verifier a relying party builds for itself: options handed over with WithVerifierOpts, algorithms taken from discovery
+		jw, _ := json.Marshal(jose.JSONWebKeySet{Keys: []jose.JSONWebKey{{Key: trusted.Pub, KeyID: "rp-trusted", Use: "sig"}}})
+		disc, _ := json.Marshal(M{"issuer": vIssuer, "authorization_endpoint": vIssuer + "/authorize", "token_endpoint": vIssuer + "/token", "jwks_uri": vIssuer + "/keys",
+			"id_token_signing_alg_values_supported": []string{alg}})
+		hc := &http.Client{Transport: docTransport{"/.well-known/openid-configuration": disc, "/keys": jw}}
+		party, err := rp.NewRelyingPartyOIDC(context.Background(), vIssuer, vClientID, "", "https://rp.example.test/cb", []string{"openid"},
+			rp.WithHTTPClient(hc), rp.WithVerifierOpts(opts[:len(opts)-1]...), rp.WithSigningAlgsFromDiscovery())
+		if err != nil {
+			panic("harness: " + err.Error())
+		}
+		v = party.IDTokenVerifier()
+	}
 
 	o := M{"v": "reject", "claimsOK": true}
 	var got *oidc.IDTokenClaims
